@@ -306,9 +306,9 @@ def main():
             "add_only": True,
         },
         "engines": [
-            {"name": "E1", "path": "mc/enumerate.py", "kind_free_text": E1,
+            {"name": "E1", "path": "mc/hedgen.py", "kind_free_text": E1,
              "serves_properties": sorted(k for k, v in CHECKS.items() if "E1" in v["engine"])},
-            {"name": "E2", "path": "mc/explore.py", "kind_free_text": E2,
+            {"name": "E2", "path": "mc/core.py", "kind_free_text": E2,
              "serves_properties": sorted(k for k, v in CHECKS.items() if "E2" in v["engine"])},
             {"name": "E3", "path": "mc/sched.py", "kind_free_text": E3,
              "serves_properties": sorted(k for k, v in CHECKS.items() if "E3" in v["engine"])},
